@@ -103,6 +103,13 @@ def encodeCoeffs (N : Nat) (P : Nat) (scale : Dy) (vals : List SD) : List Int :=
     | some v => fixedPoint P v scale
     | none => 0
 
+/-- arbitrary-precision decoding of one coefficient (`polyToFloatCRT/NoCRT`, `polyToComplexCRT/NoCRT`):
+    `z.SetInt(c)` (rounded to the `P` bits of the receiver cell) then `z.Quo(z, scale)` (rounded to `P` bits):
+    the correctly rounded quotient by the scale ITSELF (any 128-bit scale, not only powers of two). -/
+def decodeFP (P : Nat) (c : Int) (scale : Dy) : SD :=
+  let x := roundRat P c.natAbs 1 0
+  ⟨decide (c < 0), roundRat P x.m scale.m (x.e - scale.e)⟩
+
 /-! ## decodePublic -/
 
 /-- `decodePublic`'s rounding of the rational `num/den` to a multiple of `2^-logprec`, returned as
